@@ -12,6 +12,16 @@ import z3
 
 CUR = None  # the Ctx of the run in progress (proxies reach it through cur())
 
+# Time limits are the only part of a verdict that depends on the machine.  An obligation of the ledger (vf/ledger.json: it completed as a
+# proof on the unchanged tree well inside its budget) gets every time limit - exploration budget, per-path alarm, per-query solver timeout -
+# multiplied by this factor (set per task by common._run_task), so that a slower or busier machine cannot turn an established proof into
+# "undecided".  The limits bound patience, not the claim: nothing is proved or refuted by a limit, whatever its size.
+BUDGET_SCALE = 1.0
+
+
+def scaled(seconds):
+    return seconds * BUDGET_SCALE
+
 
 def cur():
     if CUR is None:
@@ -56,7 +66,7 @@ class Ctx:
         self.opts = opts
         if solver is None:
             solver = z3.Solver()
-            solver.set("timeout", opts.get("timeout_ms", 10000))
+            solver.set("timeout", int(scaled(opts.get("timeout_ms", 10000))))
             keep = 0
         self.solver = solver
         self.keep = keep
@@ -70,6 +80,8 @@ class Ctx:
         self.n_checks = 0
         self.n_vcs = 0
         self.solver_s = 0.0
+        self.max_check_s = 0.0
+        self.n_unknown = 0
         self.notes = []
         self.ghost = {}           # free-form per-path ghost state for contracts
         self.unknown_seen = False
@@ -87,9 +99,14 @@ class Ctx:
                 self.solver.add(e)
             r = self.solver.check()
             m = self.solver.model() if r == z3.sat else None
+            if r == z3.unknown:
+                self.n_unknown += 1
         finally:
             self.solver.pop()
-            self.solver_s += time.perf_counter() - t
+            dt = time.perf_counter() - t
+            self.solver_s += dt
+            if dt > self.max_check_s:
+                self.max_check_s = dt
             self.n_checks += 1
         return r, m
 
@@ -243,7 +260,7 @@ class Ctx:
             except Exception as e:  # noqa
                 f.replay = {"reproduced": False, "text": f"replay raised {type(e).__name__}: {e}"}
             finally:
-                _arm(self.opts.get("path_budget_s", 120))
+                _arm(scaled(self.opts.get("path_budget_s", 120)))
             if not f.replay.get("reproduced"):
                 self.spurious.append(f)
                 raise PathEnd()
@@ -265,7 +282,7 @@ class Ctx:
             smt = self.solver.to_smt2()
         finally:
             self.solver.pop()
-        t = int(self.opts.get("external_timeout_s", 60))
+        t = int(scaled(self.opts.get("external_timeout_s", 60)))
         with tempfile.NamedTemporaryFile("w", suffix=".smt2", delete=False, dir=os.environ.get("TMPDIR", "/tmp")) as f:
             f.write(smt)
             path = f.name
@@ -329,6 +346,9 @@ class Result:
         self.vcs = 0
         self.checks = 0
         self.solver_s = 0.0
+        self.max_check_s = 0.0     # slowest single solver query (margin to the per-query timeout)
+        self.n_unknown = 0         # solver queries answered `unknown` (treated as feasible / handed to the external solvers)
+        self.budget_s = 0.0
         self.wall_s = 0.0
         self.failures = []
         self.status = "discharged"   # discharged | violated | undecided | error
@@ -342,6 +362,7 @@ class Result:
     def as_dict(self):
         return {"status": self.status, "paths": self.paths, "vcs": self.vcs, "solver_checks": self.checks,
                 "solver_s": round(self.solver_s, 3), "wall_s": round(self.wall_s, 3), "reason": self.reason,
+                "budget_s": round(self.budget_s, 1), "max_check_s": round(self.max_check_s, 3), "n_unknown": self.n_unknown,
                 "failures": [f.as_dict() for f in self.failures[:5]], "n_failures": len(self.failures),
                 "covers": self.covers, "known_used": sorted(self.known_used), "samples": self.samples[:2],
                 "ext_discharged": self.ext_discharged, "n_spurious": len(self.spurious), "spurious": [f.as_dict() for f in self.spurious[:3]]}
@@ -367,8 +388,10 @@ def explore(body, opts=None):
     opts = dict(opts or {})
     max_paths = opts.get("max_paths", 20000)
     max_fail = opts.get("max_failures", 3)
-    deadline = time.time() + opts.get("budget_s", 600)
+    budget_s = scaled(opts.get("budget_s", 600))
+    deadline = time.time() + budget_s
     res = Result()
+    res.budget_s = budget_s
     t0 = time.time()
     prefix = []
     solver, keep = None, 0
@@ -377,7 +400,7 @@ def explore(body, opts=None):
             ctx = Ctx(prefix, opts, solver, keep)
             solver = ctx.solver
             CUR = ctx
-            _arm(opts.get("path_budget_s", 120))
+            _arm(scaled(opts.get("path_budget_s", 120)))
             try:
                 cov = body(ctx)
                 ctx.check_adequacy()
@@ -394,6 +417,8 @@ def explore(body, opts=None):
             res.vcs += ctx.n_vcs
             res.checks += ctx.n_checks
             res.solver_s += ctx.solver_s
+            res.max_check_s = max(res.max_check_s, ctx.max_check_s)
+            res.n_unknown += ctx.n_unknown
             res.failures.extend(ctx.failures)
             if len(res.spurious) < 50:
                 res.spurious.extend(ctx.spurious)
@@ -423,7 +448,7 @@ def explore(body, opts=None):
             if res.paths >= max_paths:
                 raise Partial(f"path budget {max_paths} exhausted")
             if time.time() > deadline:
-                raise Partial(f"time budget {opts.get('budget_s', 600)} s exhausted")
+                raise Partial(f"time budget {budget_s:g} s exhausted")
     except Partial as e:
         # exploration incomplete: what was explored is a *bounded* result, never counted as proved
         res.status = "partial"
